@@ -11,8 +11,6 @@ import (
 	"github.com/gnolang/gno/gno.land/pkg/sdk/vm"
 	"github.com/gnolang/gno/tm2/pkg/amino"
 	"github.com/gnolang/gno/tm2/pkg/sdk"
-	"github.com/gnolang/gno/tm2/pkg/sdk/auth"
-	"github.com/gnolang/gno/tm2/pkg/sdk/bank"
 	"github.com/gnolang/gno/tm2/pkg/std"
 	"pgregory.net/rapid"
 	ec "verif/eng/chain"
@@ -408,9 +406,6 @@ func c13ModulesValid(rd *ec.Reader) (err error) {
 	}
 	return nil
 }
-
-var _ = auth.ModuleName
-var _ = bank.ModuleName
 
 func c13ModulePKeys(snap map[string][]byte) map[string]bool {
 	out := map[string]bool{}
